@@ -302,6 +302,11 @@ type Session struct {
 // OpenSession feeds the first flight and runs NewConn. The transport is left open
 // (no EOF), so later records can be fed.
 func OpenSession(first []byte, keys []ech.Key) (s *Session, err error, panicked any) {
+	return OpenSessionSplit(first, keys, -1)
+}
+
+// OpenSessionSplit passes the keys through two WithKeys options, keys[:split] and keys[split:] (split < 0: one option).
+func OpenSessionSplit(first []byte, keys []ech.Key, split int) (s *Session, err error, panicked any) {
 	t := memnet.New()
 	t.Feed(first)
 	s = &Session{T: t}
@@ -311,7 +316,9 @@ func OpenSession(first []byte, keys []ech.Key) (s *Session, err error, panicked 
 		}
 	}()
 	var opts []ech.Option
-	if keys != nil {
+	if keys != nil && split >= 0 && split <= len(keys) {
+		opts = append(opts, ech.WithKeys(keys[:split]), ech.WithKeys(keys[split:]))
+	} else if keys != nil {
 		opts = append(opts, ech.WithKeys(keys))
 	}
 	s.C, err = ech.NewConn(context.Background(), t, opts...)
